@@ -64,19 +64,19 @@ PROPS = {
                 filt=lambda k, o: not (k == 'R' and o in (ROOT_OPS | EQ_OPS | SSZ_OPS | SERDE_OPS | BUILDER_OPS)),
                 key=lambda ops: True),
     'C02': dict(fams=['crud', 'versions', 'rebase_pairs', 'intra', 'suffix', 'capacity', 'big', 'deep', 'hash_placement', 'fault', 'par'],
-                views=['obs'], oracles=[], pyref=True, filt=lambda k, o: k == 'R' and o in ROOT_OPS,
+                views=['obs'], oracles=['root'], pyref=False, filt=lambda k, o: k == 'R' and o in ROOT_OPS,
                 key=lambda ops: any(o.startswith('hash') for o in ops)),
     'C03': dict(fams=['hash_placement', 'rebase_pairs', 'intra', 'versions', 'crud', 'fault', 'par'], views=['obs'],
-                oracles=['memo'], pyref=True, filt=lambda k, o: k == 'R' and o in ROOT_OPS, twin='hash',
+                oracles=['memo', 'root'], pyref=False, filt=lambda k, o: k == 'R' and o in ROOT_OPS, twin='hash',
                 key=lambda ops: sum(o.startswith('hash') for o in ops) >= 2),
     'C04': dict(fams=['versions', 'rebase_pairs', 'hash_placement', 'intra'], views=['obs'], oracles=['isolation', 'memo'],
                 pyref=False, filt=lambda k, o: False,
                 key=lambda ops: any(o.startswith(('clone', 'to_vector', 'to_list', 'rebase')) for o in ops)),
     'C05': dict(fams=['capacity', 'codec', 'bulk', 'invalid_args'], views=['obs'], oracles=['capacity'], pyref=True,
-                filt=lambda k, o: k == 'R' and (o in CTOR_OPS or o == 'len'),
+                filt=lambda k, o: k == 'R' and o in CTOR_OPS,
                 key=lambda ops: True),
     'C06': dict(fams=['crud', 'versions', 'rebase_pairs', 'intra', 'suffix', 'capacity', 'codec', 'bulk'],
-                views=['obs', 'shape'], oracles=['canonical'], pyref=True, filt=lambda k, o: k == 'R' and o in EQ_OPS,
+                views=['obs', 'shape'], oracles=['canonical', 'eq'], pyref=False, filt=lambda k, o: k == 'R' and o in EQ_OPS,
                 key=lambda ops: any(o.startswith('eq') for o in ops)),
     'C07': dict(fams=['rebase_pairs', 'versions'], views=['obs'], oracles=['unchanged', 'canonical', 'memo'], oops=REBASE_OPS, pyref=False,
                 filt=lambda k, o: o in REBASE_OPS, twin='rebase',
@@ -93,16 +93,16 @@ PROPS = {
                       'eq', 'ssz_enc', 'serde_ser', 'drop', 'bulk'},
                 filt=lambda k, o: False, key=lambda ops: any(o.startswith(('apply', 'pop_front', 'clone')) for o in ops)),
     'C11': dict(fams=['suffix', 'crud'], views=['obs', 'shape'], vops=POP_OPS, oracles=['suffix', 'canonical'], oops=SUFFIX_OPS,
-                pyref=False, filt=lambda k, o: (k == 'R' and o in SUFFIX_OPS) or (k == 'O' and o in POP_OPS),
+                pyref=False, filt=lambda k, o: (k == 'R' and o in SUFFIX_OPS and o != 'level_iter') or (k == 'O' and o in POP_OPS),
                 key=lambda ops: any(o.split()[0] in SUFFIX_OPS for o in ops)),
-    'C12': dict(fams=['codec', 'crud', 'versions'], views=['obs'], oracles=[], pyref=True,
+    'C12': dict(fams=['codec', 'crud', 'versions'], views=['obs'], oracles=['ssz'], pyref=False,
                 filt=lambda k, o: k == 'R' and o in SSZ_OPS, key=lambda ops: any(o.split()[0] in SSZ_OPS for o in ops)),
-    'C13': dict(fams=['codec', 'crud'], views=['obs'], oracles=[], pyref=True,
+    'C13': dict(fams=['codec', 'crud'], views=['obs'], oracles=['serde'], pyref=False,
                 filt=lambda k, o: k == 'R' and o in SERDE_OPS, key=lambda ops: any(o.split()[0] in SERDE_OPS for o in ops)),
     'C14': dict(fams=['crud', 'versions', 'bulk', 'suffix', 'codec'], views=['obs'], oracles=[], pyref=False,
                 filt=lambda k, o: False, key=lambda ops: True, lockstep=True),
     'C15': dict(fams=['invalid_args', 'bulk', 'capacity', 'deep', 'codec', 'builder', 'crud', 'versions'], views=['obs'],
-                oracles=['wellformed', 'error_preserves'], pyref=False, filt=lambda k, o: False, errors_only=True,
+                oracles=['wellformed', 'error_preserves'], pyref=False, filt=lambda k, o: False,
                 key=lambda ops: True),
     'C16': dict(fams=['par', 'fault'], views=['obs'], oracles=['par'], pyref=True, par_only=True, twin='fault',
                 filt=lambda k, o: k == 'R' and o in ('par_hash', 'par_mix'),
@@ -461,13 +461,16 @@ def correspondence(prop, text, it, mt):
     ops = [l for l in text.splitlines() if l and not l.startswith(('#', 'config'))]
     vops = spec.get('vops')
 
-    def relevant(view, n, a, b):
-        opname = ops[n - 1].split()[0] if 0 < n <= len(ops) else ''
+    def relevant(view, n, a, b, state):
+        optoks = ops[n - 1].split() if 0 < n <= len(ops) else ['']
+        opname = optoks[0]
         if view == 'obs':
-            if spec.get('errors_only'):
-                # C15: what matters is whether and how a call fails
-                return a[0] == 'R' and a.split(' ', 2)[2:] != b.split(' ', 2)[2:] and any(
-                    (' err:' in x and not x.endswith(('err:pending', 'err:badreg'))) or x.endswith(' panic') for x in (a, b))
+            if a[0] == 'R' or b[0] == 'R':
+                # an answer that differs because the handle it was asked of had ALREADY diverged from the model
+                # (its observation line differed after the previous operation) is a consequence, not a new difference
+                regs = [x for x in optoks[1:] if len(x) == 2 and x[0] == 'h' and x[1].isdigit()]
+                if any(state.get(('O', r)) is False for r in regs):
+                    return False
             return filt(classify(a if a != '<missing>' else b), opname)
         return view in spec['views'] and (vops is None or opname in vops)
 
@@ -716,6 +719,7 @@ def check(prop, tier, seed):
     findings = []             # (index, Finding list)
     corr = []                 # (index, rel diffs)
     drift_count = 0
+    drift_only = set()       # histories whose model/implementation differences are all irrelevant to this property
     problems = []
     if okh and okm:
         env = None
@@ -764,6 +768,7 @@ def check(prop, tier, seed):
                     corr.append((i, rel))
                 if drift:
                     drift_count += 1
+                    drift_only.add(i) if not rel else None
         if spec.get('lockstep'):
             # implementation vs implementation across the three map types
             for i in range(0, len(hs) - 2):
@@ -800,6 +805,12 @@ def check(prop, tier, seed):
             except Exception as e:
                 kc = dict(cases=kc_n, ok=None, detail='not evaluated: %r' % (e,))
         if kc.get('ok') is False:
+            # a disagreement on a history where the extracted model ALSO differs from the implementation, but only on
+            # lines that are not this property's business (or are consequences), is the same irrelevant difference
+            kc['bad'] = [i for i in kc['bad'] if i not in drift_only]
+            if not kc['bad']:
+                kc['ok'] = None
+                notes.append('kernel-evaluated cases differ only where the extracted model differs irrelevantly (drift)')
             for i in kc['bad'][:3]:
                 corr.append((i, {'obs': (0, 'the implementation trace of this history', 'differs from the model evaluated inside Coq (vm_compute): ' + kc['detail'][-400:])}))
     # ---------------- verdict
